@@ -184,6 +184,60 @@ class _BoolCanon(ast.NodeTransformer):
         return node
 
 
+def _lift_conditionals(e, limit=6):
+    """Canonical decision tree of a pure expression: conditional sub-expressions are lifted to the top and the tests
+    are split in text order, so ``f(a if c else b)`` and ``f(a) if c else f(b)`` get one form."""
+    from .symexec import bool_atoms, bool_eval
+
+    scoped = (ast.ListComp, ast.SetComp, ast.DictComp, ast.GeneratorExp, ast.Lambda)
+
+    def bound(atom):
+        return "⟦c" in atom or "⟦l" in atom  # mentions a comprehension or lambda variable
+
+    def tests(node, acc):
+        if isinstance(node, ast.IfExp):
+            ats = bool_atoms(node.test)
+            if not any(bound(a) for a in ats):
+                acc |= ats
+        for ch in ast.iter_child_nodes(node):
+            tests(ch, acc)
+
+    atoms = set()
+    tests(e, atoms)
+    if not atoms or len(atoms) > limit:
+        return e
+    order = sorted(atoms)
+
+    class S(ast.NodeTransformer):
+        def __init__(self, asg):
+            self.asg = asg
+
+        def visit_IfExp(self, node):
+            r = bool_eval(node.test, self.asg)
+            if r is None:
+                return self.generic_visit(node)
+            return self.visit(node.body if r else node.orelse)
+
+    def build(i, asg):
+        cur = S(asg).visit(copy.deepcopy(e))
+        rest = set()
+        tests(cur, rest)
+        rest = [a for a in order if a in rest and a not in asg]
+        if not rest:
+            return cur
+        a = rest[0]
+        t, f = build(i + 1, {**asg, a: True}), build(i + 1, {**asg, a: False})
+        if U(t) == U(f):
+            return t
+        try:
+            test = ast.parse(a, mode="eval").body
+        except SyntaxError:
+            return cur
+        return ast.IfExp(test=test, body=t, orelse=f)
+
+    return build(0, {})
+
+
 class _FStrCanon(ast.NodeTransformer):
     """``f"{a}{'='}{b}"`` -> ``f"{a}={b}"``: constant pieces are literal text; adjacent literals are joined;
     ``{str(x)}`` without a format spec is ``{x}``."""
@@ -457,6 +511,8 @@ class Summary:
         e = _LenCanon().visit(e)
         e = _MinCanon().visit(e)
         e = _FStrCanon().visit(e)
+        if not self.impure_calls(e):
+            e = _lift_conditionals(e)
         e = self._hoist(e, ep, items)
         return self._stamp(e, ep[0])
 
@@ -1112,6 +1168,8 @@ def _same_item(a, b, budget, asg=None):
             tx = x.text(asg) if isinstance(x, V) else x
             ty = y.text(asg) if isinstance(y, V) else y
             if tx != ty:
+                if isinstance(x, V) and isinstance(y, V) and _same_by_cases(x, y, asg or {}):
+                    continue
                 return False
         return True
     if kind == "loop":
@@ -1128,6 +1186,29 @@ def _same_item(a, b, budget, asg=None):
                 return False
         return same(a[3], b[3], {}, budget) and same(a[4], b[4], {}, budget)
     return a == b
+
+
+def _same_by_cases(x, y, asg):
+    """Two values that differ as text: equal under every truth assignment of the tests of their conditional
+    sub-expressions?  (``f(a if c else b)`` == ``f(a) if c else f(b)``)"""
+    import itertools
+
+    from .symexec import bool_atoms
+
+    atoms = set()
+    for v in (x, y):
+        for n in ast.walk(v.node):
+            if isinstance(n, ast.IfExp):
+                atoms |= bool_atoms(n.test)
+    atoms = sorted(a for a in atoms if a not in asg)
+    if not atoms or len(atoms) > 7:
+        return False
+    for vals in itertools.product([False, True], repeat=len(atoms)):
+        full = dict(asg)
+        full.update(zip(atoms, vals))
+        if x.text(full) != y.text(full):
+            return False
+    return True
 
 
 def signature(func):
